@@ -38,7 +38,7 @@ def cases(tier, seed, shard, nshards):
             kw.update(steps=8000, npipes=40, p_bad=0.0, drain=3000)
         yield _exec.mix_case(rng, i, **kw)
     for i in range(N_SIM[tier]):
-        yield _sim.random_sim_case(rng, small=True)
+        yield _sim.random_sim_case(rng, small=True, algos=_sim.ALGOS_PLUS)
     if tier == "thorough" and shard < 4:
         yield _sim.regression_case(shard)
 
